@@ -1,6 +1,7 @@
 mod behreplay;
 mod cases;
 mod formula;
+mod frames;
 mod gen;
 mod histrec;
 mod ops;
@@ -70,6 +71,7 @@ fn main() {
         "colattrs" => behreplay::replay_colattrs(&gets(&m, "in", ""), &gets(&m, "out", "/tmp/icverif")),
         "reentryvocab" => reentry::vocab_size(),
         "reentry" => reentry::run(&gets(&m, "in", ""), &gets(&m, "out", "/tmp/icverif"), &gets(&m, "pairs", "en/en")),
+        "frames" => frames::run(&gets(&m, "out", "/tmp/icverif"), geti(&m, "seed", 1) as u64, geti(&m, "runs", 10) as usize, geti(&m, "steps", 25) as usize),
         "xlsxrt1" => xlsxrt::replay_one(&gets(&m, "in", "")),
         "xlsxrt" => xlsxrt::run(&gets(&m, "out", "/tmp/icverif"), geti(&m, "seed", 1) as u64, geti(&m, "runs", 10) as usize, geti(&m, "steps", 40) as usize, geti(&m, "every", 8) as usize),
         "structural" => structural::replay(&gets(&m, "in", ""), &gets(&m, "out", "/tmp/icverif")),
